@@ -325,13 +325,17 @@ fn count_ops(p: &Program, ex: &ExecTrace, out: &mut RunOut) {
 
 /// Pinned witnesses of known finding F4 (after a holder panicked the lock's semaphore stays closed):
 /// 0: try_lock on the poisoned, free mutex reports WouldBlock instead of the poisoned guard;
-/// 1: two lockers contend after the poisoning: no exclusion / internal assertion.
+/// 1: two lockers contend after the poisoning: no exclusion / internal assertion;
+/// 2: a locker in flight while the holder panics does not see the poison (panics or blocks for ever).
 pub fn known_f4(which: u64, rng: &mut Rng) -> ProgCase {
     let res = Resources { mutexes: 1, rwlocks: 1, ..Default::default() };
-    let bodies = if which % 2 == 0 {
-        vec![vec![Op::Catch(vec![Op::Lock(0)]), Op::TryLock(0), Op::Unlock(0)]]
-    } else {
-        vec![vec![Op::Catch(vec![Op::Lock(0)]), Op::Spawn(1), Op::Lock(0), Op::Yield, Op::Unlock(0), Op::Join(0)], vec![Op::Lock(0), Op::Yield, Op::Unlock(0)]]
+    let bodies = match which % 3 {
+        0 => vec![vec![Op::Catch(vec![Op::Lock(0)]), Op::TryLock(0), Op::Unlock(0)]],
+        1 => vec![vec![Op::Catch(vec![Op::Lock(0)]), Op::Spawn(1), Op::Lock(0), Op::Yield, Op::Unlock(0), Op::Join(0)], vec![Op::Lock(0), Op::Yield, Op::Unlock(0)]],
+        // a locker is already inside `lock()` (past the closed-check, at the acquisition's
+        // scheduling point, or queued) when the holder panics: it panics on
+        // `acquire_blocking(..).unwrap()` / stays blocked for ever instead of seeing the poison
+        _ => vec![vec![Op::Spawn(1), Op::Catch(vec![Op::Lock(0), Op::Yield]), Op::Join(0)], vec![Op::Lock(0), Op::Unlock(0)]],
     };
     let mut sim = sim_for(rng);
     sim.policy = crate::sim::Policy::Uniform;
